@@ -28,17 +28,8 @@ mod verif_c02 {
         }
     }
     fn same(a: &Rec, b: &Rec) -> bool {
-        if a.n != b.n {
-            return false;
-        }
-        let mut i = 0;
-        while i < 24 {
-            if i < a.n && a.buf[i] != b.buf[i] {
-                return false;
-            }
-            i += 1;
-        }
-        true
+        // unused tail bytes are zero on both sides, so whole-array equality is equality of what was written
+        a.n == b.n && a.buf == b.buf
     }
 
     /// kind code: 0 iri, 1 blank, 2 literal with datatype "d", 3 literal with language tag = payload2, 4 variable
@@ -120,7 +111,7 @@ mod verif_c02 {
 
     //@STUBS
     #[kani::proof]
-    #[kani::unwind(26)]
+    #[kani::unwind(10)]
     fn c02_term_hash_pair() {
         let (a, b) = (any_k(), any_k());
         kani::assume(key(&a) == key(&b));
@@ -149,7 +140,7 @@ mod verif_c02 {
     }
 
     #[kani::proof]
-    #[kani::unwind(26)]
+    #[kani::unwind(10)]
     fn c02_langtag_laws() {
         let (x, y): ([u8; 2], [u8; 2]) = (kani::any(), kani::any());
         kani::assume(x[0].is_ascii_alphabetic() && x[1].is_ascii_alphabetic() && y[0].is_ascii_alphabetic() && y[1].is_ascii_alphabetic());
